@@ -70,4 +70,6 @@ def run(ctx, res):
     # a worker that finds a stale stop request quits at once: the acquisition's frames never reach storage
     res.guard(RR.rule_start_reset, prog, res)
     res.require_min("R-START-RESET", 6)
+    res.guard(RR.rule_register_early, prog, res)
+    res.require_min("R-REGISTER-EARLY", 2)
     res.require_min("R-CONSUME", 3)
